@@ -117,7 +117,7 @@ def parseFK : String → Option FKind
   | "m" => some .missing | "d" => some .dir | "x" => some .unknown | _ => none
 
 def parsePC : String → Option PClass
-  | "ok" => some .ok | "fnum" => some .fnum | "fall" => some .fall | "nc" => some .nc | "x" => some .unknown | _ => none
+  | "ok" => some .ok | "okq" => some .okq | "fnum" => some .fnum | "fall" => some .fall | "nc" => some .nc | "x" => some .unknown | _ => none
 
 def parseFmt : String → Option FmtKind
   | "p" => some .probe | "f" => some .forced | "-" => some .invalid | _ => none
@@ -198,7 +198,7 @@ def runVerdict (h : Hdr) (argv : List Str) (marks : List Bool) (w : World) (all 
   match mainModel h.table h.codes h.otypes w argv with
   | .error (.mk why) => s!"BADOP unmodelled: {why}"
   | .ok p =>
-    let modelErrs := if p.fatal then ["fatal"] else collapseExpr (p.errs.map showELine)
+    let modelErrs := collapseExpr (p.errs.map showELine) ++ (if p.fatal then ["fatal"] else [])
     let modelObs := s!"{p.exit}/{showErrs modelErrs}"
     let implObs := s!"{all.exit}/{showErrs all.errs}"
     let marked := (argv.zip marks).filter (·.2) |>.map (·.1)
@@ -215,6 +215,12 @@ def runVerdict (h : Hdr) (argv : List Str) (marks : List Bool) (w : World) (all 
         | none =>
           -- independence, RELATIVE to the single runs; applies when inputs are fed one by one (model) to a
           -- compiled program and the marked files are the input files
+          -- every named input is either processed (the program's output) or reported (stderr + status), never
+          -- silently dropped (Props.C17.input_processed_or_reported); programs of class okq may print nothing
+          let dropped := (marked.zip singles).find? (fun (_, s) => s.len == 0 && s.errs.isEmpty)
+          if p.defaultMode && p.pc != .okq && p.files == marked.map some && singles.length == marked.length && dropped.isSome then
+            some s!"input {String.ofList (dropped.map (·.1) |>.getD [])} was silently dropped: no output, no report, exit {(dropped.map (·.2.exit)).getD 0}"
+          else
           -- a `_fatal_error` halts every run alike before any input is touched: nothing to compose
           let allHalt := all.errs.contains "fatal" && singles.all (·.errs.contains "fatal")
           if p.defaultMode && !allHalt && p.files == marked.map some && !marked.isEmpty && singles.length == marked.length then
